@@ -254,6 +254,14 @@ class Program:
                     raise AnalysisError("%s does not parse: %s" % (rel, exc))
                 if self.inline:
                     from .inline import inline_module, propagate_aliases
+                    from .renames import restore_names
+                    from .renames import conventional_param_names
+                    restored = restore_names(rel, mod.tree)
+                    conv = conventional_param_names(rel, mod.tree)
+                    if conv:
+                        self.inlined.setdefault(rel, {})["helper_params_renamed"] = ["%s%s %s" % (sc + "." if sc else "", nm, mp) for sc, nm, mp in conv]
+                    if restored:
+                        self.inlined.setdefault(rel, {})["names_restored"] = ["%s%s -> %s" % (sc + "." if sc else "", a, b) for sc, a, b in restored]
                     n, names = inline_module(mod.tree)
                     if n:
                         self.inlined[rel] = {"call_sites": n, "helpers": names}
